@@ -94,7 +94,7 @@ Print Assumptions C36_after_close_no_block_forever_partial.
 Theorem C36_atomic_queue_close_meets_guard :
   forall cp tr s, forallb (fun e => match e with ECloseQBegin => false | _ => true end) tr = true ->
     run (init cp) tr = Some s -> grun bdisc (init cp) tr = Some s.
-Proof. intros cp tr s. apply bdisc_atomic. discriminate. Qed.
+Proof. exact bdisc_atomic_init. Qed.
 Print Assumptions C36_atomic_queue_close_meets_guard.
 
 Example C36_send_parked_inside_queue_close_never_woken :
